@@ -370,7 +370,7 @@ func shapeRequest(r *rand.Rand, ks *keyset) *request {
 	return newReq("wrong-shape/"+m, "POST", ref.MustJSON(doc), expectProving, nil)
 }
 
-var notNumbers = []string{"", "0x", "zz", "0xzz", " 1", "1 ", "1.5", "1e3", "0x 1", "--1", "abc", "0x12zz", "١"}
+var notNumbers = []string{"", "0x", "zz", "0xzz", " 1", "1 ", "1.5", "1e3", "0x 1", "--1", "abc", "0x12zz", "١", "0x+ff", "0x-1", "0x0x1"}
 
 // malformedRequest: a body that is not a well-formed parameter document.
 func malformedRequest(r *rand.Rand, ks *keyset) *request {
